@@ -11,7 +11,7 @@ pub fn def() -> PropDef {
 
 const HOSTILE: &[&str] = &[
     "\"", "'", ": ", " #", "#", "\\", "\\n", "\n", "\t", "- ", "? ", "~", "null", "yes", "no", "true", "1e3", "0x10", "0o7", ".inf", "1_000", "\u{85}", "\u{2028}", "\u{feff}", "😀", "é", "中",
-    "{", "}", "[", "]", ",", "&a", "*a", "!t", "|", ">", "%", "@", "`", "---", "...", " ", "  ", "\r", "\u{7f}", "\u{1}", "a", "B", "0", "=", "<<",
+    "{", "}", "[", "]", ",", "&a", "*a", "!t", "|", ">", "%", "@", "`", "---", "...", " ", "  ", "\r", "\u{7f}", "\u{1}", "a", "B", "0", "=", "<<", ",]", ", }", ",\n]", "[7:0,]", "\"\":", "//", "/*",
 ];
 fn hostile_string(src: &mut Src) -> String {
     let n = src.usize_in(0, 5);
